@@ -302,7 +302,7 @@ class C13(C10):
             "mutation and was followed or preceded by a failed operation or "
             "a refused dump; distinct = distinct event-log digests among "
             "those."
-            " Between repeated dumps: another encoder built and used, the same encoder failing on another module, a busy process (300 other strings and this module through another dialect), pvl.dumps with options, add_quantity_cls on somebody else's encoder; values include reserved words, dialect-dependent strings and a user quantity class; the class of every container is part of the comparison.")
+            " Between repeated dumps: another encoder built and used, the same encoder failing on another module, a busy process (300 other strings and this module through another dialect), pvl.dumps with options, add_quantity_cls on somebody else's encoder; values include reserved words, dialect-dependent strings and a user quantity class and lists of plain tuple rows (refused by every encoder, and not to be rewritten); the class of every container and the exact type of every list/tuple value is part of the comparison.")
     ASSUMPTIONS = [
         "the reading of 'as documented' for the building operations is the "
         "C10 list-of-pairs model",
